@@ -1,7 +1,8 @@
 (* C12 — StructCodec.order_by_index: two stable sorts (by name, then by index) give the
    properties in (index, name) lexicographic order; it is a permutation. *)
 From Coq Require Import List ZArith Bool Lia Permutation Sorting.
-From TskVerif Require Import Base.Common C12.Model C12.BytesProofs C12.RoundTripProofs C12.LayoutProofs.
+From TskVerif Require Import Base.Common C12.Model C12.BytesProofs C12.Unfold C12.ValidProofs C12.ShapeProofs
+  C12.RoundTripProofs C12.LayoutProofs.
 Import ListNotations.
 Open Scope Z_scope.
 
@@ -132,6 +133,8 @@ Qed.
 (* (b) part 3: the implementation's object encoding = concatenation of the fields in
    (index, name) order — ties on index broken by name — of the ordered schema *)
 Theorem ordered_object_layout round32 req ps kv bs :
+  shape_ok (order_by_index (SObj req ps)) = true ->
+  valid (order_by_index (SObj req ps)) (VObj kv) = true ->
   encode round32 (order_by_index (SObj req ps)) (VObj kv) = EOk bs ->
   exists ps' parts,
     order_by_index (SObj req ps) = SObj req ps' /\
@@ -141,9 +144,9 @@ Theorem ordered_object_layout round32 req ps kv bs :
                exists x, field_src kv p = Some x /\ encode round32 (snd p) x = EOk part) ps' parts /\
     bs = concat parts.
 Proof.
-  intros He. cbn [order_by_index] in He.
+  intros Hs Hv He. cbn [order_by_index] in *.
   set (ps' := sort_props (map (fun p : prop => (fst p, order_by_index (snd p))) ps)) in *.
-  destruct (object_layout _ _ _ _ _ He) as (parts & HF & ->).
+  destruct (object_layout _ _ _ _ _ Hs Hv He) as (parts & HF & ->).
   exists ps', parts. repeat split; auto.
   - subst ps'. destruct (sort_props_spec (map (fun p : prop => (fst p, order_by_index (snd p))) ps)) as [HP _].
     rewrite (Permutation_map fst HP). rewrite map_map. simpl. apply Permutation_refl.
